@@ -37,6 +37,8 @@ def generate(rng, tier='quick', stack=None, focus='general', **kw):
     return generate_blocked_first(rng, tier, **kw)
   if focus == 'general' and rng.random() < 0.04:
     return generate_open_race(rng, tier, stack, **kw)
+  if focus == 'general' and stack == 'thrift' and rng.random() < 0.03:
+    return generate_clock_race(rng, tier, **kw)
   stack = stack or rng.choice(['thrift', 'mux'])
   big = tier != 'quick'
   n_eps = rng.choice([1, 1, 2, 2, 3, 4] if not big else [1, 2, 3, 4, 5, 6])
@@ -190,11 +192,12 @@ def generate(rng, tier='quick', stack=None, focus='general', **kw):
       if opk == 'connect':
         d['index'] = None
       directives.append(d)
-    if late_heavy and rng.random() < 0.4:
+    if late_heavy and rng.random() < (0.4 if stack == 'mux' else 0.25):
       # back-pressure: one of the first request frames of a connection blocks
       # half-way for longer than the short timeouts of these scenarios, so a
       # deadline fires while that very frame is being written
-      directives.append({'ep': None, 'conn': 0, 'op': 'send', 'index': None, 'nth': rng.choice([2, 2, 3, 4, 5]),
+      directives.append({'ep': None, 'conn': 0, 'op': 'send', 'index': None,
+                         'nth': rng.choice([2, 2, 3, 4, 5]) if stack == 'mux' else rng.choice([1, 1, 2, 3]),
                          'kind': 'block', 'arg': rng.choice([0.2, 0.5])})
       # ... and some of the other calls are patient enough to see what arrives afterwards
       for o in ops:
@@ -210,6 +213,12 @@ def generate(rng, tier='quick', stack=None, focus='general', **kw):
     for _ in range(rng.randint(1, 5)):
       faults.append({'t': round(rng.uniform(0, end + 0.3), 4),
                      'do': rng.choice(['leave', 'join']), 'ep': rng.randrange(n_eps)})
+  if rng.random() < 0.10:
+    # the wall clock steps (NTP correction, VM resume) while calls are in flight;
+    # the deadline clauses are not evaluated in these runs
+    for _ in range(rng.randint(1, 2)):
+      ft = round(rng.choice(ops)['t'] + rng.choice([0.0005, 0.005, 0.02]), 6) if ops else 0.1
+      faults.append({'t': ft, 'do': 'clock_step', 'by': rng.choice([0.05, 0.3, 2.0, 30.0, -0.05, -0.3, -2.0])})
   if rng.random() < 0.12:
     faults.append({'t': round(rng.uniform(end * 0.5, end + 1.0), 4), 'do': 'close', 'snap': rng.random() < 0.5})
   elif rng.random() < 0.12 and ops:
@@ -257,6 +266,44 @@ def generate_blocked_first(rng, tier='quick', **kw):
   scn['ops'] = ops
   scn['faults'] = []
   scn['directives'] = [{'ep': None, 'conn': 0, 'op': 'send', 'index': None, 'nth': 2, 'kind': 'block', 'arg': block}]
+  return scn
+
+
+def generate_clock_race(rng, tier='quick', **kw):
+  """Serial Thrift over a one-connection pool while the wall clock steps
+  backwards: a request queued for the connection has its caller-side timer armed
+  before the step and its transport-side timer after it, so the caller is
+  answered (TimeoutError) while the transport still waits for the late reply,
+  and the next request is handed the same connection."""
+  back = rng.choice([0.2, 0.3, 0.5])
+  scn = {'world': 'w_stack', 'stack': 'thrift', 'balancer': rng.choice(['aperture', 'heap']), 'focus': 'general',
+         'iface': 'sim', 'client_id': None, 'eps': [{'latency': rng.choice([0.0005, 0.003]), 'mode': 'up'}]}
+  cfg = {'timeout': 2.0, 'open_timeout': None,
+         'resurrector': {'initial_wait_interval': 5, 'max_wait_interval': 30, 'backoff_exponent': 1.5},
+         'members_dynamic': False, 'get_servers_delay': 0, 'init_failures': 0,
+         'pool': {'min_watermark': 1, 'max_watermark': 1, 'max_queue_len': 2 ** 31 - 1}}
+  if scn['balancer'] == 'aperture':
+    cfg['aperture'] = {'min_size': 1, 'max_size': 2 ** 31, 'min_load': 0.5, 'max_load': 2.0,
+                       'jitter_min_sec': 0, 'jitter_max_sec': 240}
+  scn['cfg'] = cfg
+  scn['net'] = {'chunk': rng.choice(['none', 'some']), 'jitter': 0.0, 'dns_multi': False}
+  scn['loop'] = {}
+  scn['permute_sets'] = False
+  t0 = 0.3
+  T = rng.choice([0.15, 0.2])
+  ops = [{'t': t0, 'op': 'call', 'id': 'c0', 'method': 'echo', 'payload': 'x', 'timeout': 2.0,
+          'svc': {'delay': 0.1}, 'via': 'dispatch'},
+         {'t': t0 + 0.01, 'op': 'call', 'id': 'c1', 'method': 'echo', 'payload': 'y', 'timeout': T,
+          'svc': {'delay': round(T + rng.choice([0.05, 0.1]), 3)}, 'via': 'dispatch'}]
+  t = t0 + 0.01 + T + rng.choice([0.02, 0.04])
+  for i in range(2, rng.randint(3, 5)):
+    ops.append({'t': round(t, 4), 'op': 'call', 'id': 'c%d' % i, 'method': rng.choice(['echo', 'risky', 'multi']),
+                'payload': rng.choice(PAYLOADS), 'timeout': 2.0, 'svc': {'delay': rng.choice([0.02, 0.05])},
+                'via': 'dispatch'})
+    t += rng.choice([0.0, 0.01, 0.3])
+  scn['ops'] = ops
+  scn['faults'] = [{'t': t0 + 0.05, 'do': 'clock_step', 'by': -back}]
+  scn['directives'] = []
   return scn
 
 
@@ -417,11 +464,19 @@ def generate_c09(rng, tier='quick', stack=None, **kw):
     t += rng.choice([0.3, 2.0, 10.0])
   spacing = rng.choice([0.2, 0.5, 1.0, 2.0])
   tail = res['max_wait_interval'] + 3.0 + 45 * spacing
+  n_max = 260 if tier == 'quick' else 600
+  black = any(f['do'] == 'crash_blackhole' for f in faults) or any(e['mode'] == 'blackhole' for e in scn['eps'])
+  if black:
+    # a connect that started while the endpoint was black-holed is only given
+    # up by the kernel after 127 s: keep the traffic going long enough to see
+    # the endpoint used again after that
+    spacing = max(spacing, 1.0)
+    tail = 130.0 + res['max_wait_interval'] + 3.0 + 45 * spacing
+    n_max = 520 if tier == 'quick' else 800
   end = max(last_heal, t) + tail
   ops = []
   i = 0
   tt = rng.choice([0.0, 0.05])
-  n_max = 260 if tier == 'quick' else 600
   while tt < end and i < n_max:
     ops.append({'t': round(tt, 4), 'op': 'call', 'id': 'c%d' % i, 'method': rng.choice(['echo', 'risky']),
                 'payload': 'x', 'timeout': None, 'svc': {'delay': rng.choice([0.001, 0.005, 0.02])},
